@@ -101,16 +101,41 @@ def run_all(prop, jobs, jobs_parallel, meta, tier, seed, known=None, write=True)
     with cf.ThreadPoolExecutor(max_workers=jobs_parallel) as ex:
         for r in ex.map(run_condition, jobs):
             results.append(r)
-    violations, harness_errors = [], []
+    violations, harness_errors, spurious = [], [], []
     os.makedirs(os.path.join(VERIF, 'replays'), exist_ok=True)
-    for r in results:
-        if r['verdict'] != 'counterexample':
-            continue
+
+    def _replay(r):
         m = re.search(r'when calling (.*?)(?: \(which |$)', r['detail'])
         call = m.group(1).strip() if m else None
         outcome = replay_call(r['path'], call) if call else 'raised:harness: no call expression in ' + r['detail'][:200]
         r['replay'] = outcome
         r['call'] = call
+        return outcome
+
+    for i, r in enumerate(results):
+        if r['verdict'] != 'counterexample':
+            continue
+        outcome = _replay(r)
+        if outcome == 'true':
+            # The concrete call CrossHair names returns True on the real code in a fresh interpreter: the counterexample is an
+            # artefact of the engine (state shared between the paths it explores in one process), not a violation.  The
+            # condition is explored once more; a counterexample that replays is a violation, anything else leaves the
+            # condition where a budget-limited search leaves it: not confirmed.
+            spurious.append({'condition': f"{r['module']}:{r['fn']}", 'call': r['call'], 'detail': r['detail'][:300]})
+            job = next(j for j in jobs if j[0] == r['path'] and j[1] == r['fn'])
+            r2 = run_condition((job[0], job[1], job[2], max(10, int(job[3] * 0.6))))
+            if r2['verdict'] == 'counterexample':
+                outcome = _replay(r2)
+                if outcome == 'true':
+                    spurious.append({'condition': f"{r2['module']}:{r2['fn']}", 'call': r2['call'], 'detail': r2['detail'][:300]})
+                    r2['verdict'] = 'not-confirmed'
+            if r2['verdict'] == 'confirmed':
+                r2['verdict'] = 'not-confirmed'      # one of two explorations produced an artefact: no claim
+            r2['wall_s'] = round(r2['wall_s'] + r['wall_s'], 1)
+            results[i] = r = r2
+            if r['verdict'] != 'counterexample':
+                continue
+        call = r.get('call')
         if outcome == 'false':
             hname = hashlib.sha1((r['module'] + (call or '')).encode()).hexdigest()[:12]
             rp = os.path.join(VERIF, 'replays', f"{prop}-{hname}.json")
@@ -119,10 +144,8 @@ def run_all(prop, jobs, jobs_parallel, meta, tier, seed, known=None, write=True)
                            'fn': r['fn'], 'call': call, 'detail': r['detail']}, f, indent=1)
             r['replay_path'] = rp
             violations.append(r)
-        elif outcome == 'true':
-            harness_errors.append(r)       # CrossHair's counterexample does not reproduce natively
         else:
-            harness_errors.append(r)
+            harness_errors.append(r)       # the replay itself failed
     known = known or []
     new_violations = []
     known_hits = {}
@@ -139,9 +162,11 @@ def run_all(prop, jobs, jobs_parallel, meta, tier, seed, known=None, write=True)
         print(f"VIOLATION property={prop} replay={v['replay_path']}")
         print(f"  condition={v['module']}:{v['fn']} counterexample: {v['call']}")
     for e in harness_errors:
-        print("INCONCLUSIVE " + json.dumps({'condition': f"{e['module']}:{e['fn']}", 'why': 'CrossHair counterexample did not '
-                                            'reproduce natively', 'call': e.get('call'), 'replay': e.get('replay'),
+        print("INCONCLUSIVE " + json.dumps({'condition': f"{e['module']}:{e['fn']}", 'why': 'the native replay of a CrossHair '
+                                            'counterexample failed', 'call': e.get('call'), 'replay': e.get('replay'),
                                             'detail': e['detail'][:300]}))
+    for e in spurious:
+        print("NOTE spurious CrossHair counterexample (returns True on the real code in a fresh interpreter): " + json.dumps(e))
     counts = {}
     for r in results:
         counts[r['verdict']] = counts.get(r['verdict'], 0) + 1
@@ -170,6 +195,7 @@ def run_all(prop, jobs, jobs_parallel, meta, tier, seed, known=None, write=True)
             'bounds': meta.get('bounds', ''),
             'outside_bounds': meta.get('outside', ''),
             'known_findings_reproduced': sorted(known_hits),
+            'spurious_counterexamples_not_reproduced_natively': spurious,
             'solver_seconds': round(sum(r['wall_s'] for r in results), 1),
             'exhaustive': False,
         },
